@@ -11,6 +11,10 @@ using sh::xobj;
 
 static long g_next_serial = 0;
 
+struct item3 { char c[3]; };
+struct item7 { char c[7]; };
+struct item24 { long v[3]; };
+
 struct Slot {
     bool live = false;
     std::coroutine_handle<> h;
@@ -25,20 +29,34 @@ struct IStore {
     virtual ~IStore() {}
     virtual std::coroutine_handle<> create(int k, Slot &s, unsigned char seed) = 0;
     virtual long xval() { return 0; }
+    virtual long xoff(const char *) { return 0; }
     virtual void after_finish(Slot &) {}
 };
 
-template <typename Base, bool X>
-using sto_t = top<std::conditional_t<X, promise_extra_storage<xobj, spy<Base>>, spy<Base>>>;
+// XT = void: the bare policy; otherwise promise_extra_storage<XT, Base>
+template <typename Base, typename XT>
+struct sto_sel {
+    using type = top<promise_extra_storage<XT, spy<Base>>>;
+};
+template <typename Base>
+struct sto_sel<Base, void> {
+    using type = top<spy<Base>>;
+};
+template <typename Base, typename XT = void>
+using sto_t = typename sto_sel<Base, XT>::type;
 
-template <typename Base, bool X>
+template <typename Base, typename XT = void>
 struct PlainStore : IStore {
-    sto_t<Base, X> s;
+    sto_t<Base, XT> s;
     template <typename... A>
     PlainStore(A &&...a) : s(std::forward<A>(a)...) {}
     std::coroutine_handle<> create(int k, Slot &sl, unsigned char seed) override { return sh::start(s, k, &sl.ok, seed); }
     long xval() override {
-        if constexpr (X) return s->serial;   // the attached object, read through the storage right after creation
+        if constexpr (!std::is_void_v<XT>) return s->serial;   // the attached object, read through the storage right after creation
+        else return 0;
+    }
+    long xoff(const char *frame) override {   // where the attached object lies relative to the frame
+        if constexpr (!std::is_void_v<XT>) return (long)(reinterpret_cast<const char *>(s.inventory) - frame);
         else return 0;
     }
 };
@@ -46,14 +64,14 @@ struct PlainStore : IStore {
 template <typename Item>
 struct BufStore : IStore {
     std::vector<Item> v;
-    sto_t<reusable_buffer_storage<std::vector<Item>>, false> s;
+    sto_t<reusable_buffer_storage<std::vector<Item>>> s;
     BufStore(std::size_t n0) : v(n0), s(v) {}
     std::coroutine_handle<> create(int k, Slot &sl, unsigned char seed) override { return sh::start(s, k, &sl.ok, seed); }
 };
 
 struct StackStore : IStore {
     std::size_t state;
-    using S = sto_t<stack_storage, false>;
+    using S = sto_t<stack_storage>;
     StackStore(std::size_t st) : state(st) {}
     std::coroutine_handle<> create(int k, Slot &sl, unsigned char seed) override {
         bool saved = vh::t_count;
@@ -89,7 +107,7 @@ struct Env {
     std::string engine;
     IStore *store = nullptr;
     bool up = false, ever = false;
-    long x = 0, a = 0;
+    long x = 0, a = 0, xal = 8;
     std::vector<Slot> slots;
     void *plc_buf = nullptr;
     int live() const {
@@ -113,15 +131,24 @@ static IStore *make(A &&...a) {
     return new (g_arena) T(std::forward<A>(a)...);
 }
 
-static bool do_init(Env &e, long x, long a, long b) {
+template <typename Base>
+static IStore *make_x(long x, long xal, bool &ok) {
+    ok = true;
+    if (x == 0) return make<PlainStore<Base>>();
+    if (x == (long)sizeof(xobj) && xal == (long)alignof(xobj)) return make<PlainStore<Base, xobj>>([] { return xobj(g_next_serial++); });
+    if (x == (long)sizeof(sh::xobj16) && xal == (long)alignof(sh::xobj16)) return make<PlainStore<Base, sh::xobj16>>([] { return sh::xobj16(g_next_serial++); });
+    if (x == (long)sizeof(sh::xobj4) && xal == (long)alignof(sh::xobj4)) return make<PlainStore<Base, sh::xobj4>>([] { return sh::xobj4(g_next_serial++); });
+    ok = false;
+    return nullptr;
+}
+
+static bool do_init(Env &e, long x, long a, long b, long xal) {
     // refuse what this harness has no instantiation for (the generator never produces it)
-    auto factory = [] { return xobj(g_next_serial++); };
     const std::string &g = e.engine;
-    bool X = x != 0;
-    if (X && x != (long)sizeof(xobj)) return false;
-    if (g == "st_def") e.store = X ? make<PlainStore<default_storage, true>>(factory) : make<PlainStore<default_storage, false>>();
-    else if (g == "st_reu") e.store = X ? make<PlainStore<reusable_storage, true>>(factory) : make<PlainStore<reusable_storage, false>>();
-    else if (g == "st_mts") e.store = X ? make<PlainStore<reusable_storage_mtsafe, true>>(factory) : make<PlainStore<reusable_storage_mtsafe, false>>();
+    bool X = x != 0, ok = true;
+    if (g == "st_def") e.store = make_x<default_storage>(x, xal, ok);
+    else if (g == "st_reu") e.store = make_x<reusable_storage>(x, xal, ok);
+    else if (g == "st_mts") e.store = make_x<reusable_storage_mtsafe>(x, xal, ok);
     else if (X) return false;
     else if (g == "st_stk") e.store = make<StackStore>((std::size_t)a);
     else if (g == "st_plc") {
@@ -130,13 +157,16 @@ static bool do_init(Env &e, long x, long a, long b) {
         e.plc_buf = std::malloc(a ? a : 1);
         sh::g_areas.push_back({static_cast<char *>(e.plc_buf), (std::size_t)a});
         vh::t_count = saved;
-        e.store = make<PlainStore<placement_alloc, false>>(e.plc_buf);
+        e.store = make<PlainStore<placement_alloc>>(e.plc_buf);
     } else if (g == "st_buf") {
         if (a == 1) e.store = make<BufStore<char>>((std::size_t)b);
         else if (a == 8) e.store = make<BufStore<long>>((std::size_t)b);
+        else if (a == 3) e.store = make<BufStore<item3>>((std::size_t)b);      // sizes that do not divide the frame size
+        else if (a == 7) e.store = make<BufStore<item7>>((std::size_t)b);
+        else if (a == 24) e.store = make<BufStore<item24>>((std::size_t)b);
         else return false;
     } else return false;
-    return true;
+    return ok;
 }
 
 static void run_case(const vh::Case &cs) {
@@ -148,29 +178,30 @@ static void run_case(const vh::Case &cs) {
     bool single = g == "st_reu" || g == "st_plc" || g == "st_buf";   // documented one-live-frame policies
     for (auto &op : cs.ops) {
         if (op.empty()) { reject(); continue; }
-        if (op[0] == 0 && op.size() == 4) {
-            long x = op[1], a = op[2], b = op[3];
-            if (e.up || e.ever || x < 0 || a < 0 || b < 0 || (g == "st_buf" && a <= 0)) { reject(); continue; }
+        if (op[0] == 0 && (op.size() == 4 || op.size() == 5)) {
+            long x = op[1], a = op[2], b = op[3], xal = op.size() == 5 ? op[4] : 8;
+            if (e.up || e.ever || x < 0 || a < 0 || b < 0 || xal <= 0 || (g == "st_buf" && a <= 0)) { reject(); continue; }
             sh::tl_mark m;
             sh::tl_nev = 0;
             bool okinit;
             {
                 counted c_;
-                okinit = do_init(e, x, a, b);
+                okinit = do_init(e, x, a, b, xal);
             }
             if (!okinit) {
-                std::fprintf(stderr, "UNSUPPORTED-INIT %s %ld %ld %ld\n", g.c_str(), x, a, b);
+                std::fprintf(stderr, "UNSUPPORTED-INIT %s %ld %ld %ld %ld\n", g.c_str(), x, a, b, xal);
                 std::_Exit(3);
             }
             e.up = e.ever = true;
             e.x = x;
             e.a = a;
+            e.xal = xal;
             vh::print_obs({0, m.news(), m.dels()});
         } else if (op[0] == 1 && op.size() == 4) {
             long slot = op[1], k = op[2], sz = op[3];
             if (!e.up || slot < 0 || slot >= 64 || sz <= 0 || e.slots[slot].live) { reject(); continue; }
             if (single && e.live() > 0) { reject(); continue; }
-            if (g == "st_plc" && sz + e.x > e.a) { reject(); continue; }
+            if (g == "st_plc" && sz + e.x > e.a) { reject(); continue; }   // (extra object never used with placement here)
             if (k < 0 || k >= sh::n_classes || (long)sh::class_size((int)k) != sz) sh::size_mismatch((int)k, sz, sh::class_size((int)k));
             Slot &s = e.slots[slot];
             sh::tl_mark m;
@@ -183,8 +214,9 @@ static void run_case(const vh::Case &cs) {
             }
             s.ptr = static_cast<char *>(sh::tl_top_ptr);
             if ((long)sh::tl_top_sz != sz) sh::size_mismatch((int)k, sz, sh::tl_top_sz);
-            s.n = sh::tl_top_sz + (std::size_t)e.x;
             long xv = e.store->xval();
+            long xo = e.store->xoff(s.ptr);
+            s.n = e.x ? (std::size_t)(xo + e.x) : sh::tl_top_sz;   // bytes used: frame, gap, extra object
             sh::Block b = sh::block_of(s.ptr);
             long room = b.found ? (long)((b.base + b.size) - s.ptr) : -1;
             long fresh = b.found && b.heap && b.serial > ser;
@@ -192,7 +224,7 @@ static void run_case(const vh::Case &cs) {
             for (auto &o : e.slots)
                 if (o.live && s.ptr < o.ptr + o.n && o.ptr < s.ptr + s.n) ovl++;
             s.live = true;
-            std::vector<long> v{0, m.news(), m.dels(), fresh, room, ovl, xv};
+            std::vector<long> v{0, m.news(), m.dels(), fresh, room, ovl, xv, xo};
             for (int i = 0; i < sh::tl_nev; i++) v.push_back(sh::tl_evs[i]);
             vh::print_obs(v);
         } else if (op[0] == 2 && op.size() == 2) {
@@ -202,6 +234,7 @@ static void run_case(const vh::Case &cs) {
             sh::Block b = sh::block_of(s.ptr);
             sh::tl_mark m;
             sh::tl_nev = 0;
+            sh::tl_top_dsz = 0;
             {
                 counted c_;
                 s.h.resume();    // the body checks its canaries and runs to the final suspend
@@ -209,7 +242,7 @@ static void run_case(const vh::Case &cs) {
             }
             long rel = b.found && b.heap && !sh::g_reg.has(b.base, b.serial);
             s.live = false;
-            std::vector<long> v{0, m.news(), m.dels(), rel, s.ok};
+            std::vector<long> v{0, m.news(), m.dels(), rel, s.ok, (long)sh::tl_top_dsz};
             for (int i = 0; i < sh::tl_nev; i++) v.push_back(sh::tl_evs[i]);
             vh::print_obs(v);
             e.store->after_finish(s);
@@ -242,7 +275,9 @@ int main(int argc, char **argv) {
     if (argc < 2) return 2;
     vh::t_count = false;
     if (std::string(argv[1]) == "--sizes") {
-        std::printf("x %zu\n", sizeof(xobj));
+        std::printf("x %zu %zu\n", sizeof(xobj), alignof(xobj));
+        std::printf("x %zu %zu\n", sizeof(sh::xobj16), alignof(sh::xobj16));
+        std::printf("x %zu %zu\n", sizeof(sh::xobj4), alignof(sh::xobj4));
         for (int k = 0; k < sh::n_classes; k++) std::printf("%d %zu\n", k, sh::class_size(k));
         return 0;
     }
